@@ -215,7 +215,9 @@ class BuiltinMixin:
         else:
             raise Unsupported("range with step")
         n = z3.If(hi > lo, hi - lo, 0)
-        return Iter(("indexed", n, lambda k: wrap(TInt, lo + k)))
+        it = Iter(("indexed", n, lambda k: wrap(TInt, lo + k)))
+        it.is_range = True
+        return it
 
     def bi_enumerate(self, args, kwargs, st, node):
         start = kwargs.get("start", args[1] if len(args) > 1 else 0)
